@@ -2,17 +2,30 @@
 // functions, not catalogue models) on test functions that the extracted Coq
 // model can evaluate identically (same operations in the same order).
 //
-//	ROOT <fspec> <dspec> x0 a b tol conv n
-//	    fspec := POLY k c0 .. c(k-1)      Horner  c0 + x*(c1 + x*(...))
-//	           | PWL  k x0..x(k-1) y0..y(k-1)   piecewise linear, constant outside
-//	           | POW  k m c               k*math.Pow(x,m) - c
-//	           | SHPOW k r p              k*(x-r)^p, p a decimal integer, by repeated multiplication
-//	           | PWT  k x0..x(k-1) y0..y(k-1)   fn.Piecewise(x, xs, ys), -1 on error
-//	    dspec := NONE | fspec             (fn_dx; NONE = nil)
-//	    floats as 16 hex digits, n decimal
-//	  -> OK <x> <delta> E <ne> <eval points of fn..> D <nd> <eval points of fn_dx..>
-//	     (NaN printed as "nan")  |  PANIC
-//	PIECEWISE n xs.. ys.. q   -> OK <y> | ERR | PANIC
+//		ROOT <fspec> <dspec> x0 a b tol conv n
+//		    fspec := POLY k c0 .. c(k-1)      Horner  c0 + x*(c1 + x*(...))
+//		           | PWL  k x0..x(k-1) y0..y(k-1)   piecewise linear, constant outside
+//		           | POW  k m c               k*math.Pow(x,m) - c
+//		           | SHPOW k r p              k*(x-r)^p, p a decimal integer, by repeated multiplication
+//		           | PWT  k x0..x(k-1) y0..y(k-1)   fn.Piecewise(x, xs, ys), -1 on error
+//		    dspec := NONE | fspec             (fn_dx; NONE = nil)
+//		    floats as 16 hex digits, n decimal
+//		  -> OK <x> <delta> E <ne> <eval points of fn..> D <nd> <eval points of fn_dx..>
+//		     (NaN printed as "nan")  |  PANIC
+//		PIECEWISE n xs.. ys.. q   -> OK <y> | ERR | PANIC
+//
+//	  PWLAY <xlayout> <ylayout> n xs.. ys.. q   -> as PIECEWISE; the two tables are handed to Piecewise as views
+//	      of larger arrays, the way callers store them (Piecewise must not care how a table is stored):
+//	      layout := P                                  plain 1-d array
+//	              | COL b nsets set pad short          column `set` of a [n+pad, nsets] block, cut as the generated
+//	                                                   model wrappers do: block.Slice([0,set],[n],nil) (short=1, a
+//	                                                   rank-deficient view) or Slice([0,set],[n,1],nil).MustReshape([n])
+//	              | COL2 b nsets set r0 pad            the same column of the row range r0.. of a taller block (slice of a slice)
+//	              | COLSTR b nsets set step            every step-th row of the column: Slice([0,set],[n],[step,1])
+//	              | STR b off step tail                strided view of a 1-d array: Slice([off],[n],[step])
+//	              | STR2 b off1 s1 off2 s2             a stepped view of a stepped view (thinned twice)
+//	      b := G (Go-backed, data.ArrayFromSliceFloat64) | C (C-style memory, cdata.NewFloat64CArray);
+//	      cells that do not belong to the table hold -(1000+position)
 //
 // Re-entrancy (the Coq model is a pure function, so the CODE's re-entrancy has to be exercised):
 //
@@ -35,8 +48,10 @@ import (
 	"runtime"
 	"strings"
 	"sync"
+	"unsafe"
 
 	"github.com/flowmatters/openwater-core/data"
+	"github.com/flowmatters/openwater-core/data/cdata"
 	"github.com/flowmatters/openwater-core/util/fn"
 )
 
@@ -171,6 +186,87 @@ func c18parseRoot(t *toks) func(yield bool) string {
 	}
 }
 
+// c18base wraps a flat buffer (filled by position, independently of the data package's index arithmetic)
+func c18base(backing string, buf []float64, dims []int) data.NDFloat64 {
+	if backing == "C" {
+		return cdata.NewFloat64CArray(unsafe.Pointer(&buf[0]), dims)
+	}
+	return data.ArrayFromSliceFloat64(buf, dims)
+}
+
+func c18filler(n int) []float64 {
+	buf := make([]float64, n)
+	for i := range buf {
+		buf[i] = -(1000 + float64(i))
+	}
+	return buf
+}
+
+// c18layout parses one layout and returns the table as the view it describes (and the buffer, to keep it alive).
+func c18layout(t *toks, vals []float64) (data.ND1Float64, []float64) {
+	n := len(vals)
+	kind := t.next()
+	if kind == "P" {
+		a := data.NewArray1DFloat64(n)
+		for i, v := range vals {
+			a.Set1(i, v)
+		}
+		return a, nil
+	}
+	b := t.next()
+	switch kind {
+	case "COL":
+		nsets, set, pad, short := t.int(), t.int(), t.int(), t.int()
+		buf := c18filler((n + pad) * nsets)
+		for k, v := range vals {
+			buf[k*nsets+set] = v
+		}
+		base := c18base(b, buf, []int{n + pad, nsets})
+		if short == 1 {
+			return base.Slice([]int{0, set}, []int{n}, nil).(data.ND1Float64), buf
+		}
+		return base.Slice([]int{0, set}, []int{n, 1}, nil).MustReshape([]int{n}).(data.ND1Float64), buf
+	case "COL2":
+		nsets, set, r0, pad := t.int(), t.int(), t.int(), t.int()
+		buf := c18filler((r0 + n + pad) * nsets)
+		for k, v := range vals {
+			buf[(r0+k)*nsets+set] = v
+		}
+		base := c18base(b, buf, []int{r0 + n + pad, nsets})
+		rows := base.Slice([]int{r0, 0}, []int{n, nsets}, nil)
+		return rows.Slice([]int{0, set}, []int{n}, nil).(data.ND1Float64), buf
+	case "COLSTR":
+		nsets, set, step := t.int(), t.int(), t.int()
+		rows := (n-1)*step + 1
+		buf := c18filler(rows * nsets)
+		for k, v := range vals {
+			buf[k*step*nsets+set] = v
+		}
+		base := c18base(b, buf, []int{rows, nsets})
+		return base.Slice([]int{0, set}, []int{n}, []int{step, 1}).(data.ND1Float64), buf
+	case "STR":
+		off, step, tail := t.int(), t.int(), t.int()
+		buf := c18filler(off + (n-1)*step + 1 + tail)
+		for k, v := range vals {
+			buf[off+k*step] = v
+		}
+		base := c18base(b, buf, []int{len(buf)})
+		return base.Slice([]int{off}, []int{n}, []int{step}).(data.ND1Float64), buf
+	case "STR2":
+		off1, s1, off2, s2 := t.int(), t.int(), t.int(), t.int()
+		m := off2 + (n-1)*s2 + 1
+		buf := c18filler(off1 + (m-1)*s1 + 1)
+		for k, v := range vals {
+			buf[off1+(off2+k*s2)*s1] = v
+		}
+		base := c18base(b, buf, []int{len(buf)})
+		v1 := base.Slice([]int{off1}, []int{m}, []int{s1})
+		return v1.Slice([]int{off2}, []int{n}, []int{s2}).(data.ND1Float64), buf
+	default:
+		panic("bad layout " + kind)
+	}
+}
+
 func c18parsePiecewise(t *toks) func(yield bool) string {
 	n := t.int()
 	xv := t.floats(n)
@@ -240,6 +336,38 @@ func init() {
 	}
 	commands["PIECEWISE"] = func(t *toks, w *bufio.Writer) {
 		fmt.Fprintln(w, c18parsePiecewise(t)(false))
+	}
+	commands["PWLAY"] = func(t *toks, w *bufio.Writer) {
+		// the layouts come first but need the values: remember the layout tokens, read the table, then build
+		start := t.i
+		skip := func() {
+			switch t.next() {
+			case "P":
+			case "COL", "COL2", "STR2":
+				t.i += 5
+			case "COLSTR", "STR":
+				t.i += 4
+			default:
+				panic("bad layout")
+			}
+		}
+		skip()
+		ystart := t.i
+		skip()
+		n := t.int()
+		xv := t.floats(n)
+		yv := t.floats(n)
+		q := unhex(t.next())
+		xs, xbuf := c18layout(&toks{t: t.t, i: start}, xv)
+		ys, ybuf := c18layout(&toks{t: t.t, i: ystart}, yv)
+		y, err := fn.Piecewise(q, xs, ys)
+		runtime.KeepAlive(xbuf)
+		runtime.KeepAlive(ybuf)
+		if err != nil {
+			fmt.Fprintln(w, "ERR")
+			return
+		}
+		fmt.Fprintf(w, "OK %s\n", c18hex(y))
 	}
 	commands["NEST"] = func(t *toks, w *bufio.Writer) {
 		depth := t.int()
